@@ -69,39 +69,6 @@ Definition norm_default (d : option string) : option string :=
   | Some s => Some (strip_outer_parens (trim s))
   end.
 
-(* ---------- CREATE TABLE ---------- *)
-Definition table_of_create (name : string) (cols : list scol) (pks : list (list string)) (fks : list sfk)
-  (checks : list (string * string)) : ctable :=
-  let inline_pk := map sc_name (filter sc_pk cols) in
-  let pkcols := match pks with p :: _ => p | [] => inline_pk end in
-  mkCTable name
-    (map (fun c => mkCCol (sc_name c) (sc_type c) (sc_notnull c) (norm_default (sc_default c))
-                          (position_ci (sc_name c) pkcols 1)) cols)
-    (existsb sc_autoinc cols) fks checks.
-
-Definition create_ok (cols : list scol) (pks : list (list string)) (fks : list sfk) : bool :=
-  let names := map sc_name cols in
-  (nonempty cols
-   && negb (has_dup_ci names)
-   && Nat.leb (List.length (filter sc_pk cols) + List.length pks) 1
-   && forallb (fun c => implb (sc_autoinc c) (sc_pk c && ieq (sc_type c) "integer")) cols
-   && forallb (fun p => forallb (fun n => imem n names) p) pks
-   && forallb (fun f => (forallb (fun n => imem n names) (sf_cols f)
-                         && Nat.eqb (List.length (sf_cols f)) (List.length (sf_refcols f)))%bool) fks)%bool.
-
-(* ---------- foreign_keys=ON: writing a child table needs every parent to exist with a usable key ---------- *)
-Definition is_key_of (parent : ctable) (idx : list cindex) (cols : list string) : bool :=
-  let pk := map cc_name (filter (fun c => negb (Nat.eqb (cc_pk c) 0)) (ct_cols parent)) in
-  let same_set (a b : list string) :=
-    (Nat.eqb (List.length a) (List.length b) && forallb (fun x => imem x b) a && forallb (fun x => imem x a) b)%bool in
-  (same_set pk cols
-   || existsb (fun i => (ieq (ci_table i) (ct_name parent) && ci_unique i && same_set (ci_cols i) cols)%bool) idx)%bool.
-Definition child_writable (c : catalog) (child : ctable) : bool :=
-  forallb (fun f => match find_ctable (sf_table f) c with
-                    | None => false
-                    | Some p => is_key_of p (cat_indexes c) (sf_refcols f)
-                    end) (ct_fks child).
-
 (* ---------- CHECK text: identifier tokens ---------- *)
 Definition is_ident_char (a : ascii) : bool :=
   let n := N_of_ascii a in
@@ -159,7 +126,65 @@ Fixpoint mentions_token (col : string) (s : string) (mode : nat) (tok : string) 
              else let '(_, m, t) := tok_step0 a in (ieq (rev_string tok) col || mentions_token col r m t)%bool
       end
   end.
+(* bare identifier tokens of a CHECK text (double-quoted names fall back to string literals in SQLite when no such column
+   exists, so only bare tokens can make CREATE TABLE fail with "no such column") *)
+Fixpoint bare_tokens (s : string) (mode : nat) (tok : string) : list string :=
+  match s with
+  | EmptyString => match mode with 3 => [rev_string tok] | _ => [] end
+  | String a r =>
+      match mode with
+      | 0 => let '(_, m, t) := tok_step0 a in bare_tokens r m t
+      | 1 => if Ascii.eqb a "'"%char then bare_tokens r 0 EmptyString else bare_tokens r 1 EmptyString
+      | 2 => if Ascii.eqb a """"%char then bare_tokens r 0 EmptyString else bare_tokens r 2 EmptyString
+      | _ => if is_ident_char a then bare_tokens r 3 (String a tok)
+             else let '(_, m, t) := tok_step0 a in rev_string tok :: bare_tokens r m t
+      end
+  end.
+Definition sql_words : list string :=
+  ["in"; "and"; "or"; "not"; "null"; "is"; "like"; "between"; "true"; "false"; "length"; "lower"; "upper"; "abs";
+   "glob"; "case"; "when"; "then"; "else"; "end"; "cast"; "as"; "integer"; "text"; "real"; "coalesce"; "typeof"].
+Definition starts_with_digit (s : string) : bool :=
+  match s with String a _ => let n := N_of_ascii a in (N.leb 48 n && N.leb n 57)%bool | EmptyString => true end.
+(* approximation of SQLite's name resolution inside a CHECK: a bare token that is neither a number nor one of the
+   SQL words above must be a column of the table *)
+Definition check_resolves (cols : list string) (chk : string * string) : bool :=
+  forallb (fun w => (starts_with_digit w || imem w sql_words || imem w cols)%bool) (bare_tokens (snd chk) 0 EmptyString).
+
 Definition check_uses (col : string) (chk : string * string) : bool := mentions_token col (snd chk) 0 EmptyString.
+
+(* ---------- CREATE TABLE ---------- *)
+Definition table_of_create (name : string) (cols : list scol) (pks : list (list string)) (fks : list sfk)
+  (checks : list (string * string)) : ctable :=
+  let inline_pk := map sc_name (filter sc_pk cols) in
+  let pkcols := match pks with p :: _ => p | [] => inline_pk end in
+  mkCTable name
+    (map (fun c => mkCCol (sc_name c) (sc_type c) (sc_notnull c) (norm_default (sc_default c))
+                          (position_ci (sc_name c) pkcols 1)) cols)
+    (existsb sc_autoinc cols) fks checks.
+
+Definition create_ok (cols : list scol) (pks : list (list string)) (fks : list sfk) (checks : list (string * string)) : bool :=
+  let names := map sc_name cols in
+  (nonempty cols
+   && forallb (check_resolves names) checks
+   && negb (has_dup_ci names)
+   && Nat.leb (List.length (filter sc_pk cols) + List.length pks) 1
+   && forallb (fun c => implb (sc_autoinc c) (sc_pk c && ieq (sc_type c) "integer")) cols
+   && forallb (fun p => forallb (fun n => imem n names) p) pks
+   && forallb (fun f => (forallb (fun n => imem n names) (sf_cols f)
+                         && Nat.eqb (List.length (sf_cols f)) (List.length (sf_refcols f)))%bool) fks)%bool.
+
+(* ---------- foreign_keys=ON: writing a child table needs every parent to exist with a usable key ---------- *)
+Definition is_key_of (parent : ctable) (idx : list cindex) (cols : list string) : bool :=
+  let pk := map cc_name (filter (fun c => negb (Nat.eqb (cc_pk c) 0)) (ct_cols parent)) in
+  let same_set (a b : list string) :=
+    (Nat.eqb (List.length a) (List.length b) && forallb (fun x => imem x b) a && forallb (fun x => imem x a) b)%bool in
+  (same_set pk cols
+   || existsb (fun i => (ieq (ci_table i) (ct_name parent) && ci_unique i && same_set (ci_cols i) cols)%bool) idx)%bool.
+Definition child_writable (c : catalog) (child : ctable) : bool :=
+  forallb (fun f => match find_ctable (sf_table f) c with
+                    | None => false
+                    | Some p => is_key_of p (cat_indexes c) (sf_refcols f)
+                    end) (ct_fks child).
 
 Definition ren (old new : string) (l : list string) : list string := map (fun x => if ieq x old then new else x) l.
 
@@ -168,7 +193,7 @@ Definition exec (fk_on : bool) (c : catalog) (st : stmt) : result catalog engine
   match st with
   | SCreateTable name cols pks fks checks =>
       if name_taken name c then Err (ENameTaken name)
-      else if negb (create_ok cols pks fks) then Err (EBadCreate name)
+      else if negb (create_ok cols pks fks checks) then Err (EBadCreate name)
       else Ok (mkCat (cat_tables c ++ [table_of_create name cols pks fks checks]) (cat_indexes c))
   | SDropTable name =>
       if has_ctable name c then
